@@ -205,3 +205,68 @@ func TestVerifC05HTTPFailures(t *testing.T) {
 	}
 	env.Finish(res)
 }
+
+// TestVerifC05KeepAlive: the Close that keep-alive itself performs on a dead session is a shutdown
+// like any other: with a silent peer (its transport stays up) and a user call outstanding, Close and
+// Wait return, the call fails, and nothing is left running.  The ping-fate patterns and the
+// observations are C13's (c13Case); the verdict here is about termination only.
+func TestVerifC05KeepAlive(t *testing.T) {
+	env := verifx.LoadEnv("C05")
+	res := env.NewResult()
+	cases := env.NewCases(res, "close-by-keepalive-with-outstanding-call")
+	var pats []string
+	var gen func(p string, n int)
+	gen = func(p string, n int) {
+		pats = append(pats, p)
+		if n == 0 {
+			return
+		}
+		for _, c := range "TEA" {
+			gen(p+string(c), n-1)
+		}
+	}
+	gen("", 3)
+	for _, side := range []string{"client", "server"} {
+		for _, kind := range []string{"call", "handler"} {
+			if kind == "handler" && side == "client" {
+				continue
+			}
+			for th := 1; th <= 2; th++ {
+				for _, p := range pats {
+					idx, mine := cases.Next()
+					if !mine {
+						continue
+					}
+					var obs c13Obs
+					var bad, sig string
+					func() {
+						defer func() {
+							if r := recover(); r != nil {
+								bad, sig = fmt.Sprintf("panic / bubble failure: %v", r), "c13 panic-or-leak"
+							}
+						}()
+						synctest.Test(t, func(t *testing.T) { obs, bad, sig = c13Case(side, 2*time.Second, th, p, kind) })
+					}()
+					desc := fmt.Sprintf("side=%s outstanding=%s threshold=%d ping fates=%q", side, kind, th, p)
+					// termination-related verdicts only; the timing verdicts belong to C13
+					relevant := false
+					for _, k := range []string{"dead-session-not-closed", "wait-never-returned", "goroutine-left-behind", "pending-call-outlives-session", "handler-outlives-session", "panic-or-leak"} {
+						if strings.Contains(sig, k) {
+							relevant = true
+						}
+					}
+					if bad != "" && relevant {
+						cases.Violate(idx, "c05 keepalive-close "+strings.TrimPrefix(sig, "c13 "), bad+" ["+desc+"]", len(p)+1)
+						continue
+					}
+					cls := "open"
+					if obs.closedAt >= 0 {
+						cls = "closed"
+					}
+					cases.Record(idx, fmt.Sprintf("%s th=%d %s", kind, th, cls), len(p)+1, func() string { return desc })
+				}
+			}
+		}
+	}
+	env.Finish(res)
+}
